@@ -6,8 +6,10 @@ C03 geometry on the footnote grammar (PM stage 2b).
   (`AreaHyp`; bottom decorations allowed since repair 8db5909) and footnote bodies of non-negative heights; through
   nested blocks, cloned decorations, the second layout, `find_earlier_page_break`, and every footnote being laid
   out, postponed or un-laid-out on the way.
-  Why the hypothesis: with a negative top margin an emptied footnote area *raises* `page_bottom` above the page
-  box (`Witness/C01Foot.area_negative_margin_overflows`, finding footnote-area-negative-margin-overflow).
+  Why the hypothesis: with a top margin more negative than its content is high, a non-empty footnote area has a
+  margin box of negative height and *raises* `page_bottom` above the page box
+  (`Witness/C01Foot.area_negative_margin_box_overflows`, finding footnote-area-negative-margin-box; the emptied-area
+  case, finding footnote-area-negative-margin-overflow, is repaired: 84e5b27).
 * `page_bottom_exact` — for every `@footnote` style `context.page_bottom` always is the page bottom minus the margin
   height of the footnote area (full strength since repair 8db5909: the former witness `page_bottom_drifts` is the
   regression example `page_bottom_no_drift`); `page_bottom_le` — and never exceeds the page box bottom under
@@ -16,6 +18,7 @@ C03 geometry on the footnote grammar (PM stage 2b).
   gap or overlap (`area_stacked`).
 -/
 import WpModel.Lemmas.FootGeoBox
+import WpModel.Lemmas.FootOverlap
 import WpModel.Props.C01Foot
 
 namespace Wp.C03FootGeo
@@ -94,52 +97,71 @@ theorem line_above_its_footnotes (c : FCtx) (guard pie : Bool) (bs y : Rat) (F :
         · left; rw [h1]; exact hov.2
     · exact ih _ h
 
-theorem updateArea_areaH_ne (c : FCtx) (g : FState) : (updateArea c g).1.areaH ≠ none := by
-  unfold updateArea; dsimp only; split <;> simp
+theorem updateArea_areaH_ne (c : FCtx) (g : FState) (hc : g.cur ≠ []) : (updateArea c g).1.areaH ≠ none := by
+  unfold updateArea; dsimp only
+  split
+  · rename_i he; exact absurd (List.isEmpty_iff.mp he) hc
+  · simp
 
-theorem footLoop_areaH_mono (c : FCtx) (guard pie : Bool) (bs y : Rat) (G : List Fn) (g : FState)
-    (hg : g.areaH ≠ none) : (footLoop c guard pie bs y G g).2.areaH ≠ none := by
+theorem layoutFootnote_areaH_ne (c : FCtx) (g : FState) (f : Fn) : (layoutFootnote c g f).1.areaH ≠ none := by
+  unfold layoutFootnote
+  exact updateArea_areaH_ne c _ (by simp)
+
+/-- While nothing is postponed the area only grows: once it has a height it keeps one. -/
+theorem footLoop_areaH_keep (c : FCtx) (guard pie : Bool) (bs y : Rat) (G : List Fn) (g : FState)
+    (hg : g.areaH ≠ none) (hrep : (footLoop c guard pie bs y G g).2.reported = []) :
+    (footLoop c guard pie bs y G g).2.areaH ≠ none := by
   induction G generalizing g with
   | nil => exact hg
   | cons x xs ih =>
-    have h1 : (layoutFootnote c g x).1.areaH ≠ none := updateArea_areaH_ne c _
-    have h2 : (reportFootnote c (layoutFootnote c g x).1 x).areaH ≠ none := updateArea_areaH_ne c _
-    unfold footLoop
+    have h2 : (reportFootnote c (layoutFootnote c g x).1 x).reported ≠ [] := by simp
+    unfold footLoop at hrep ⊢
     split
-    · dsimp only
+    · rename_i hp
+      rw [if_pos hp] at hrep
+      dsimp only at hrep ⊢
       split
-      · split
-        · exact h2
-        · split
-          · split <;> exact h2
-          · exact ih _ h2
-      · exact ih _ h1
-    · exact ih _ hg
+      · rename_i hov
+        rw [if_pos hov] at hrep
+        exfalso
+        split at hrep
+        · exact h2 hrep
+        · split at hrep
+          · split at hrep <;> exact h2 hrep
+          · exact footLoop_reported_ne c guard pie bs y xs _ h2 hrep
+      · rename_i hov
+        rw [if_neg hov] at hrep
+        exact ih _ (layoutFootnote_areaH_ne c g x) hrep
+    · rename_i hp
+      rw [if_neg hp] at hrep
+      exact ih _ hg hrep
 
-/-- A footnote loop that leaves the area untouched (`height` still 'auto') laid nothing out. -/
+/-- A footnote loop that postpones nothing and leaves the area without a height laid nothing out. -/
 theorem footLoop_unchanged (c : FCtx) (guard pie : Bool) (bs y : Rat) (F : List Fn) (fs : FState)
+    (hrep : (footLoop c guard pie bs y F fs).2.reported = [])
     (h : (footLoop c guard pie bs y F fs).2.areaH = none) : (footLoop c guard pie bs y F fs).2 = fs := by
   induction F generalizing fs with
   | nil => rfl
   | cons f rest ih =>
-    have h1 : (layoutFootnote c fs f).1.areaH ≠ none := updateArea_areaH_ne c _
-    have h2 : (reportFootnote c (layoutFootnote c fs f).1 f).areaH ≠ none := updateArea_areaH_ne c _
-    unfold footLoop at h ⊢
+    have h2 : (reportFootnote c (layoutFootnote c fs f).1 f).reported ≠ [] := by simp
+    unfold footLoop at h hrep ⊢
     split
     · rename_i hp
-      rw [if_pos hp] at h
-      dsimp only at h ⊢
+      rw [if_pos hp] at h hrep
+      dsimp only at h hrep ⊢
       exfalso
-      split at h
-      · split at h
-        · exact h2 h
-        · split at h
-          · split at h <;> exact h2 h
-          · exact footLoop_areaH_mono c guard pie bs y rest _ h2 h
-      · exact footLoop_areaH_mono c guard pie bs y rest _ h1 h
+      split at hrep
+      · split at hrep
+        · exact h2 hrep
+        · split at hrep
+          · split at hrep <;> exact h2 hrep
+          · exact footLoop_reported_ne c guard pie bs y rest _ h2 hrep
+      · rename_i hov
+        rw [if_neg hov] at h
+        exact footLoop_areaH_keep c guard pie bs y rest _ (layoutFootnote_areaH_ne c fs f) hrep h
     · rename_i hp
-      rw [if_neg hp] at h
-      exact ih _ h
+      rw [if_neg hp] at h hrep
+      exact ih _ hrep h
 
 /-- … and with the page-bottom invariant that is the top of the footnote area: `page_bottom = page height −
 margin height of the area`. -/
@@ -155,13 +177,59 @@ theorem line_above_area_top (c : FCtx) (guard pie : Bool) (bs y : Rat) (F : List
   · rcases hinv'.2.1 with ⟨hnone, _⟩ | ⟨a, ha, _, hpb⟩
     · exfalso
       apply hne
-      have := footLoop_unchanged c guard pie bs y F fs (by rw [h]; exact hnone)
+      have := footLoop_unchanged c guard pie bs y F fs (by rw [h]; exact hrep) (by rw [h]; exact hnone)
       rw [h] at this
       exact this
     · refine ⟨a, ha, ?_⟩
       simp only [Ctx.overflowsPage, ctxOf, hpb] at h1
       exact h1
   · exact absurd h1 hne
+
+/-! ### a paragraph and the footnote area: the lines end above `page_bottom` as the layout leaves it -/
+
+/-- The state in which a page starts (no footnote laid out yet) satisfies the exact bookkeeping `PbX`. -/
+theorem pbx_page_start (c : FCtx) (pending : List Fn) :
+    PbX c { pending := pending, cur := [], reported := [], pageBottom := c.pageH, areaH := none } :=
+  ⟨⟨by simp, Or.inl ⟨rfl, rfl⟩, by simp⟩, by simp [pbOf]⟩
+
+/-- **Body text does not run into the footnote area, paragraph level** (C03 with footnotes; the whole-layout form
+needs the stacking of boxes under non-negative margins and is not proved): for the layout of a paragraph started in
+any state with exact bookkeeping — footnotes of earlier content already in the area, footnotes postponed from the
+previous page — every line of the returned fragment, the first line excepted when the paragraph started an empty
+page, ends above `context.page_bottom` *as the layout leaves it*: the page bottom minus the footnote area that
+holds all footnotes taken so far, those called from this paragraph included (`PbX`: `page_bottom = pbOf cur`).
+Through every footnote laid out, postponed (`footnote-policy` auto/line/block) or un-laid-out by `_break_line`. -/
+theorem para_lines_above_footnotes (id n : Nat) (lineH : Rat) (st : PStyle) (calls : List Call) (hd : st.DecoOk)
+    (hh : ∀ cl ∈ calls, 0 ≤ (cl.m : Rat) * cl.h) (hlh : 0 ≤ lineH) (c : FCtx) (ha : AreaHyp c.area) (idx : Nat)
+    (y bs : Rat) (skip : Option Resume) (cb pie : Bool) (adjL : List Rat) (fs : FState) (hx : PbX c fs) (f : Frag)
+    (hf : (layoutBoxF c (.para id n lineH st calls) idx y bs skip cb pie adjL fs).r.frag = some f) :
+    let fs' := (layoutBoxF c (.para id n lineH st calls) idx y bs skip cb pie adjL fs).fs
+    fs'.pageBottom = pbOf c fs'.cur ∧
+    ∀ l ∈ placedLines f pie (.para id n lineH st), l.exempt = true ∨
+      overflows (pbOf c fs'.cur - bs) l.bottom = false := by
+  intro fs'
+  obtain ⟨h1, h2⟩ := para_fits_final id n lineH st calls hd hh hlh c ha idx y bs skip cb pie adjL fs hx f hf
+  refine ⟨h1.2, ?_⟩
+  intro l hl
+  rcases h2 l hl with h | h
+  · exact Or.inl h
+  · right
+    simp only [Ctx.overflowsPage, ctxOf] at h
+    rw [← h1.2]
+    exact h
+
+/-- `pbOf`: with no footnote in the area the page bottom is the page box bottom; with some, it is the top of the
+area's margin box (`areaOut.y`). -/
+theorem pbOf_is_area_top (c : FCtx) (cur : List Fn) (o : AreaOut) (h : areaOut c.area c.pageH cur = some o) :
+    pbOf c cur = o.y := by
+  have hb := areaOut_bottom c.area c.pageH cur o h
+  unfold areaOut at h
+  split at h
+  · cases h
+  · rename_i hne
+    unfold pbOf
+    rw [if_neg hne]
+    grind
 
 /-! ### pages -/
 
@@ -248,6 +316,55 @@ theorem remakePageF_line_fits (d : FDoc) (hd : DecoOk d.root.erase) (hh : Height
         grind
     · exact hfit.2.2.2
 
+theorem areaOut_none (a : AreaStyle) (pageH : Rat) (cur : List Fn) (h : areaOut a pageH cur = none) :
+    cur.isEmpty = true := by
+  unfold areaOut at h
+  split at h
+  · assumption
+  · cases h
+
+theorem pbOf_empty (c : FCtx) (cur : List Fn) (h : cur.isEmpty = true) : pbOf c cur = c.pageH := by
+  unfold pbOf; rw [if_pos h]
+
+/-- **When a page is done, `context.page_bottom` is the top of the footnote area put on it** (any `@footnote`
+style, any box styles): the state in which the layout of the root box ends holds the page's footnotes, its
+`page_bottom` is `pbOf` of them, and that is the `y` of the area rendered on the page (the page box bottom when the
+page has no footnote). With `para_lines_above_footnotes` this ties the bound the lines were checked against to the
+box drawn on the page. -/
+theorem page_bottom_is_area_top (d : FDoc) (hh : HeightsOk d.root) (index : Nat) (resume : Option Resume)
+    (np : NextPage) (right : Bool) (pending reported : List Fn) (hrep : ∀ f ∈ reported, 0 ≤ f.height) (p : FPage)
+    (hp : remakePageF d index resume np right pending reported = some p) :
+    ∃ fsEnd : FState, fsEnd.cur = p.cur ∧
+      fsEnd.pageBottom = pbOf (pageCtxOf d index resume np right reported) p.cur ∧
+      (p.area = none → fsEnd.pageBottom = d.pageH) ∧ (∀ o, p.area = some o → o.y = fsEnd.pageBottom) := by
+  unfold remakePageF at hp
+  dsimp only at hp
+  split at hp
+  · cases hp
+  · rename_i f hfrag
+    simp only [Option.some.injEq] at hp
+    have hx0 : PbX (pageCtxOf d index resume np right reported)
+        (pageStart d (pageCtxOf d index resume np right reported) pending reported) := by
+      unfold pageStart
+      apply placeReported_pbx _ _ _ _ _ hrep
+      exact pbx_page_start _ pending
+    have hsrc : HeightsOk (if isBlankF d resume np right reported = true then emptyRootF d.root else d.root) := by
+      split
+      · exact heightsOk_emptyRootF _
+      · exact hh
+    have hx := boxF_pbx _ hsrc (pageCtxOf d index resume np right reported) 0 0 0 resume false true []
+      (pageStart d (pageCtxOf d index resume np right reported) pending reported) hx0
+    subst hp
+    refine ⟨_, rfl, hx.2, ?_, ?_⟩
+    · intro hnone
+      simp only at hnone
+      rw [hx.2, pbOf_empty _ _ (areaOut_none _ _ _ hnone)]
+      rfl
+    · intro o ho
+      simp only at ho
+      rw [hx.2]
+      exact (pbOf_is_area_top _ _ o ho).symm
+
 /-- **Line fits, all pages of a footnote document** (C03): on every page, every line but possibly the first ends
 above the bottom of the page box. -/
 theorem paginate_line_fits (d : FDoc) (hd : DecoOk d.root.erase) (hh : HeightsOk d.root)
@@ -333,5 +450,16 @@ example :
       (FootOut.ok, 0, some 10, 30) ∧
     (footLoop c true false 0 30 [g] fs).2.reported.length = 1 := by
   decide +kernel
+
+/-- `para_lines_above_footnotes` on page 1 of `exDoc` (40px page): the paragraph keeps footnote 1 (10px) and
+postpones footnote 2; `page_bottom` ends at 30 = the area top, and the three lines end at 10, 20, 30. -/
+example :
+    let c : FCtx := pageCtxOf C01Foot.exDoc 0 none { brk := none, page := some "" } true []
+    let R := layoutBoxF c (.para 1 5 10 C01Foot.exSt [⟨1, 1, 1, 10, .auto⟩, ⟨2, 2, 2, 10, .auto⟩, ⟨4, 3, 3, 10, .line⟩])
+      0 0 0 none false true []
+      { pending := boxFns C01Foot.exDoc.root, cur := [], reported := [], pageBottom := 40, areaH := none }
+    (R.fs.pageBottom, pbOf c R.fs.cur, R.fs.cur.map (·.fid), R.fs.reported.map (·.fid),
+      R.r.frag.map (fun f => (placedLines f true (.para 1 5 10 C01Foot.exSt)).map (fun l => l.bottom))) =
+    (30, 30, [1], [2], some [10, 20, 30]) := by decide +kernel
 
 end Wp.C03FootGeo
